@@ -60,6 +60,28 @@ func CheckReclaim(w *World, rec *CycleRecord) ([]Finding, ReclaimFacts) {
 		charged[pv.Name] = c
 		apply(wl, c, +1)
 	}
+	// Charge is a lower bound for gpu-memory sharers (share of the labelled device memory); the scheduler charges the
+	// share of the floored label rounded up to hundredths. Where the oracle argues that a queue was NOT above its
+	// quota it must use an upper bound: gpuSlack[q] bounds what the pods below q can cost more than Charge says.
+	gpuSlack := map[string]float64{}
+	for _, pv := range rec.Before.Pods {
+		wl := wls[pv.Workload]
+		if wl == nil || pv.Reservation || pv.Req.GPUMem <= 0 {
+			continue
+		}
+		d := 0.0
+		for n, cp := range caps {
+			if (pv.Node != "" && n != pv.Node) || cp.GPUMem <= 0 {
+				continue
+			}
+			if x := ChargeUpper(pv.Req, cp)[RGPU] - Charge(pv.Req, cp)[RGPU]; x > d {
+				d = x
+			}
+		}
+		for _, q := range Chain(tree, wl.Queue) {
+			gpuSlack[q.Name] += d
+		}
+	}
 	decs := Decisions(rec.Calls, func(pod string) string {
 		if pv := rec.Before.ByName[pod]; pv != nil {
 			return pv.Workload
@@ -207,6 +229,7 @@ func CheckReclaim(w *World, rec *CycleRecord) ([]Finding, ReclaimFacts) {
 			}
 			node := tree[vq]
 			start := before[vq].all
+			start[RGPU] += gpuSlack[vq]
 			above := func(alloc [3]float64) bool {
 				for r := 0; r < 3; r++ {
 					if exceeds(alloc[r], node.Deserved[r], tol*math.Max(1, alloc[r])) || exceeds(alloc[r], sh.FairShare[r], tol*math.Max(1, alloc[r])) {
